@@ -31,6 +31,7 @@ pub fn inject(steps: Vec<Step>, ctx: &mut Ctx, x: Xch, timeout_ms: u64, table: &
         if label == "system-info" && x == Xch::H2 {
             alts.push("wrong-serial");
             alts.push("case-serial");
+            alts.push("identity-refused");
         }
         let c = ctx.dev(1 + alts.len(), "fault");
         if c == 0 {
@@ -65,6 +66,12 @@ pub fn inject(steps: Vec<Step>, ctx: &mut Ctx, x: Xch, timeout_ms: u64, table: &
             }
             "wrong-serial" => {
                 out.extend([Step::Note("serial:wrong".into()), r.system_info("17FD1E3D", TERMINAL_ID)]);
+                out.extend(it);
+                return out;
+            }
+            "identity-refused" => {
+                // the terminal answers the identity check with an abort: a reply of the set, but no identity
+                out.extend([Step::Note("serial:refused".into()), r.abort(0x6c)]);
                 out.extend(it);
                 return out;
             }
@@ -131,7 +138,7 @@ pub fn verify(t: &TermState, cfg: &zvt_feig_terminal::config::Config) -> Vec<Str
                 if let Some(f) = l.strip_prefix("fault:") {
                     poisoned[c] = Some(f.to_string());
                 }
-                if l == "serial:wrong" {
+                if l == "serial:wrong" || l == "serial:refused" {
                     wrong_serial[c] = true;
                 }
                 if l == "delay:just-in-time" {
@@ -166,7 +173,7 @@ pub fn verify(t: &TermState, cfg: &zvt_feig_terminal::config::Config) -> Vec<Str
                     }
                     _ => {
                         if wrong_serial[c] {
-                            problems.push(format!("connection {c}: {key} was sent although the terminal reported a different serial number"));
+                            problems.push(format!("connection {c}: {key} was sent although the terminal reported a different serial number (or refused to report one)"));
                         }
                     }
                 }
@@ -395,7 +402,7 @@ pub fn run(run: &RunInfo) -> Summary {
         transitions: acc.get("transitions"),
         traces_validated: execs,
         distinct_nontrivial: acc.set_len("outcomes"),
-        rule: format!("real Feig client against the simulated terminal (paused clock): 2 configurations (usual; no terminal id, other password and currency) x 7 scenarios (Feig::new, then read_card / begin / commit idle / cancel idle / commit and cancel with another transaction open / configure, then a further read_card) x every placement of <= {budget} fault(s): at every terminal-to-client packet (handshake included) one of close, close after half a packet, reset, undecodable body, foreign control field, NACK, silence, reply 1 ms after / 1 ms before the time-out, wrong serial, serial differing in case; and the peer closing the idle connection before any operation; plus two clients in one process (the first at three stages of progress) x 5 pairs of configured / reported serial number of the second. Oracle on the global connection log"),
+        rule: format!("real Feig client against the simulated terminal (paused clock): 2 configurations (usual; no terminal id, other password and currency) x 7 scenarios (Feig::new, then read_card / begin / commit idle / cancel idle / commit and cancel with another transaction open / configure, then a further read_card) x every placement of <= {budget} fault(s): at every terminal-to-client packet (handshake included) one of close, close after half a packet, reset, undecodable body, foreign control field, NACK, silence, reply 1 ms after / 1 ms before the time-out, wrong serial, serial differing in case, identity check answered with an abort; and the peer closing the idle connection before any operation; plus two clients in one process (the first at three stages of progress) x 5 pairs of configured / reported serial number of the second. Oracle on the global connection log"),
         exhaustive: true,
         required_witnesses: vec![
             "a fault was followed by a fresh, vetted connection".into(),
